@@ -51,7 +51,10 @@ func init() {
 		if err := runC17Slices(c); err != nil {
 			return err
 		}
-		return runC17Skips(c)
+		if err := runC17Skips(c); err != nil {
+			return err
+		}
+		return runC17Narrow(c)
 	})
 }
 
@@ -348,7 +351,10 @@ func TestC17Slices(t *testing.T) {
 		if err := runC17Slices(c); err != nil {
 			return nt, labels, err
 		}
-		return nt, labels, runC17Skips(c)
+		if err := runC17Skips(c); err != nil {
+			return nt, labels, err
+		}
+		return nt, labels, runC17Narrow(c)
 	})
 }
 
@@ -450,4 +456,109 @@ func runC17Skips(c c17SliceCase) error {
 
 func init() {
 	registerReplay("c17skips", func(c c17SliceCase) error { return runC17Skips(c) })
+}
+
+// A value outside the destination's width is an error wherever the destination
+// sits: scalar, slice item, map value, behind a pointer.
+type c17Narrow struct {
+	A  []int32          `json:"a"`
+	B  []int16          `json:"b"`
+	M  map[string]int16 `json:"m"`
+	P  *int32           `json:"p"`
+	S  int16            `json:"s"`
+	NI null.Int         `json:"ni"`
+}
+
+var c17NarrowSchema = `{"type":"record","name":"n","fields":[
+ {"name":"a","type":{"type":"array","items":"long"}},{"name":"b","type":{"type":"array","items":"int"}},
+ {"name":"m","type":{"type":"map","values":"long"}},{"name":"p","type":["null","long"]},{"name":"s","type":"long"},{"name":"ni","type":"long"}]}`
+
+// runC17Narrow decodes a record whose values all fit, then the same record with
+// one value (at position `where`) replaced by one that does not fit its field.
+func runC17Narrow(c c17SliceCase) error {
+	lib, err := avro.SchemaFromString(c17NarrowSchema)
+	if err != nil {
+		return fmt.Errorf("VERIF-INCONCLUSIVE harness: %v", err)
+	}
+	rs, _ := ref.ParseSchema([]byte(c17NarrowSchema))
+	codec, err := lib.Codec(c17Narrow{})
+	if err != nil {
+		return fmt.Errorf("Schema.Codec: %v", err)
+	}
+	n := len(c.Ints)
+	if n == 0 {
+		return nil
+	}
+	build := func(bad int, badVal int64) ref.Datum {
+		a, b, m := ref.Datum{K: "array"}, ref.Datum{K: "array"}, ref.Datum{K: "map"}
+		for i, x := range c.Ints {
+			va, vb, vm := int64(int32(x)), int64(int16(x)), int64(int16(x>>3))
+			if bad == 0*n+i {
+				va = badVal
+			}
+			if bad == 1*n+i {
+				vb = badVal
+			}
+			if bad == 2*n+i {
+				vm = badVal
+			}
+			a.Items = append(a.Items, ref.Long(va))
+			b.Items = append(b.Items, ref.Int(vb))
+			m.Keys, m.Vals = append(m.Keys, fmt.Sprintf("k%d", i)), append(m.Vals, ref.Long(vm))
+		}
+		p, s := int64(int32(c.Ints[0])), int64(int16(c.Ints[0]))
+		if bad == 3*n {
+			p = badVal
+		}
+		if bad == 3*n+1 {
+			s = badVal
+		}
+		return ref.Datum{K: "record", Fields: []ref.Datum{a, b, m, ref.Union(1, ref.Long(p)), ref.Long(s), ref.Long(c.Ints[0])}}
+	}
+	decode := func(d ref.Datum) (c17Narrow, error) {
+		body, err := ref.Encode(rs, d, nil)
+		if err != nil {
+			return c17Narrow{}, fmt.Errorf("VERIF-INCONCLUSIVE harness: %v", err)
+		}
+		var got c17Narrow
+		rb := avro.NewReadBuf(body)
+		err = codec.Read(rb, reflect.ValueOf(&got).UnsafePointer())
+		return got, err
+	}
+	got, err := decode(build(-1, 0))
+	if err != nil {
+		return fmt.Errorf("a record whose values all fit their fields: %v", err)
+	}
+	for i, x := range c.Ints {
+		if got.A[i] != int32(x) || got.B[i] != int16(x) || got.M[fmt.Sprintf("k%d", i)] != int16(x>>3) {
+			return fmt.Errorf("item %d decoded as %d / %d / %d, want %d / %d / %d", i, got.A[i], got.B[i], got.M[fmt.Sprintf("k%d", i)], int32(x), int16(x), int16(x>>3))
+		}
+	}
+	if got.P == nil || *got.P != int32(c.Ints[0]) || got.S != int16(c.Ints[0]) || !got.NI.Valid || got.NI.Int64 != c.Ints[0] {
+		return fmt.Errorf("scalars decoded as %v / %d / %+v", got.P, got.S, got.NI)
+	}
+	// one value that does not fit: position and value from the case
+	where := int(uint64(c.Ints[0]) % uint64(3*n+2))
+	width := []int{32, 16, 16, 32, 16}[min(where/n, 3)+map[bool]int{true: 1, false: 0}[where == 3*n+1]]
+	lo, hi := int64(math.MinInt32), int64(math.MaxInt32)
+	if width == 16 {
+		lo, hi = math.MinInt16, math.MaxInt16
+	}
+	if where/n == 1 && where < 3*n {
+		// array<int> into []int16: the bad value still has to be a legal Avro int
+		lo, hi = math.MinInt16, math.MaxInt16
+	}
+	for _, bad := range []int64{hi + 1, lo - 1, hi + 1 + int64(uint32(c.Ints[n-1])>>4), lo - 1 - int64(uint32(c.Ints[n-1])>>4)} {
+		if where/n == 1 && where < 3*n && (bad > math.MaxInt32 || bad < math.MinInt32) {
+			continue
+		}
+		if _, err := decode(build(where, bad)); err == nil {
+			return fmt.Errorf("the value %d at position %d (a %d-bit destination: item of a, b, value of m, p, s in that order) was decoded without error", bad, where, width)
+		}
+	}
+	return nil
+}
+
+func init() {
+	registerReplay("c17narrow", func(c c17SliceCase) error { return runC17Narrow(c) })
 }
